@@ -1,5 +1,7 @@
 import Ivg.Lemmas.EncoderProto
-import Ivg.Gen.Tie
+import Ivg.Gen.Tie.DrawOps
+import Ivg.Gen.Tie.EncodeErrors
+import Ivg.Gen.Tie.Magic
 import Ivg.Obligations
 /-!
 # C10 — the Encoder reports an error exactly when the call protocol was violated
@@ -15,7 +17,7 @@ metadata."
 The protocol is specified independently of the Encoder model by the four-state automaton of
 `Ivg/Spec/Protocol.lean` (`Spec.Protocol.pstep`, `prun`), written from the text above.  The theorems
 are about the executable model `Ivg.Enc.Encoder` (`Ivg/Model/Encoder.lean`), tied to /repo by the
-differential suite and by `Gen.Tie.errorStrings_tie` (the four error values), `drawOps_tie`, `magic_tie`.
+differential suite and by `Gen.Tie.encodeErrors_tie` (the four error values), `drawOps_tie`, `magic_tie`.
 Histories range over the WHOLE API: the 26 delivering methods (`EncOp.call`), `CSel()`, `NSel()`,
 `LOD()`, `Bytes()` and assignments to the exported field `HighResolutionCoordinates`.
 -/
@@ -149,4 +151,4 @@ end Ivg.Props.C10
   Ivg.Props.C10.err_iff_violation, Ivg.Props.C10.first_violation_kept, Ivg.Props.C10.reset_classification,
   Ivg.Props.C10.reset_clears_error, Ivg.Props.C10.zero_value_is_default_reset,
   Ivg.Props.C10.zero_value_lod_deviation,
-  Ivg.Gen.Tie.errorStrings_tie, Ivg.Gen.Tie.drawOps_tie, Ivg.Gen.Tie.magic_tie]
+  Ivg.Gen.Tie.encodeErrors_tie, Ivg.Gen.Tie.drawOps_tie, Ivg.Gen.Tie.magic_tie]
